@@ -101,9 +101,15 @@ def country_fields(registry, cc):
 CLASS_ALPHABET = {"n": "0123456789", "a": "ABCDEFGHIJKLMNOPQRSTUVWXYZ", "c": "0123456789ABCDEFGHIJKLMNOPQRSTUVWXYZ", "e": " "}
 
 
-def probes(fields, accepts, seed=0, n_random=24):
+PAIR_VALUES_C = "0159ABIJRSZ"   # values used for alphanumeric positions in the pairwise family (numeric positions use all ten digits)
+
+
+def probes(fields, accepts, seed=0, n_random=24, pairs=False):
     """Deterministic probe family over the accepted fields: base, every single-position variation,
-    and pseudo-random fills.  Yields dicts component -> string (all published fields filled)."""
+    and pseudo-random fills.  Yields dicts component -> string (all published fields filled).
+    pairs=True (thorough tier) adds every *pair* of accepted positions varied jointly from the base vector: all 10 x 10 digit
+    values for numeric positions, all letters for alphabetic ones, the values of PAIR_VALUES_C for alphanumeric ones - a special
+    case keyed on any two positions at once is inside the family."""
     import random
     base = {c: "".join(CLASS_ALPHABET[k][0] for k in cls) for c, (a, b, cls) in fields.items()}
     yield dict(base)
@@ -119,6 +125,25 @@ def probes(fields, accepts, seed=0, n_random=24):
     rnd = random.Random(1000003 * (seed + 1))
     for _ in range(n_random):
         yield {c: "".join(rnd.choice(CLASS_ALPHABET[k]) for k in cls) for c, (a, b, cls) in fields.items()}
+    if pairs:
+        slots = [(c, i, k) for c in accepts if c in fields for i, k in enumerate(fields[c][2])]
+
+        def values(k):
+            return PAIR_VALUES_C if k == "c" else CLASS_ALPHABET[k]
+
+        for x in range(len(slots)):
+            for y in range(x + 1, len(slots)):
+                (c1, i1, k1), (c2, i2, k2) = slots[x], slots[y]
+                for v1 in values(k1):
+                    if v1 == base[c1][i1]:
+                        continue
+                    for v2 in values(k2):
+                        if v2 == base[c2][i2]:
+                            continue
+                        p = dict(base)
+                        p[c1] = p[c1][:i1] + v1 + p[c1][i1 + 1:]
+                        p[c2] = p[c2][:i2] + v2 + p[c2][i2 + 1:]
+                        yield p
 
 
 def all_values_agreement(ev, cls, acc, computed):
